@@ -185,7 +185,7 @@ def ordinals(rep: int, arg: int, extra: int, vals: List[int], rep2: int) -> bool
 
 _o = sc.op_of
 _QOPS = [_o('A', 1), _o('O', 0), _o('O', 1), _o('T'), _o('U')]
-_TOPS = [_o('A', 0), _o('A', 1), _o('S', 1), _o('H'), _o('N'), _o('O', 0), _o('O', 1), _o('T'), _o('U')]
+_TOPS = [_o('A', 1), _o('H'), _o('N'), _o('O', 0), _o('O', 1), _o('T'), _o('U')]
 CONDITIONS = [
     {'fn': 'edits', 'nontrivial': 'edited-program-with-outputs',
      'what': 'recorded program P, replayed program P\' = behavioural edit of P; outputs of both runs vs the call-site journal',
